@@ -61,6 +61,30 @@ def _absval(x):
     return abs(x)
 
 
+@pb.signal_transform
+def _cast_scaled(x, dtype=None, name=1.0):
+    """A transform whose own keywords are spelt like parameters of dask.array.map_blocks."""
+    return (x * name).astype(dtype)
+
+
+def _imul(z, w):
+    """y = copy of z; y *= w (an in-place operator keeps the container's dtype)."""
+    y = type(z).like(z, z.data.copy())
+    y *= w
+    return y
+
+
+def _iadd(z):
+    y = type(z).like(z, z.data.copy())
+    y += np.full(z.shape[-1:], 0.1, dtype=np.float64)
+    return y
+
+
+def _weights(z):
+    w = np.arange(1, z.shape[-1] + 1) / 4 + 0.5
+    return (w + 0.25j).astype(np.complex128) if z.dtype.kind == "c" else w.astype(np.float64)
+
+
 def per_chan(z, vals):
     n = z.sample_shape[0] if z.sample_shape else 1
     return np.array([vals[i % len(vals)] for i in range(n)], dtype=float)
@@ -118,6 +142,11 @@ OPS = [
     ("np.negative", lambda z: z.dtype.kind != "b", lambda z: np.negative(z)),
     ("2 - z", any_sig, lambda z: 2 - z),
     ("signal_transform x2", any_sig, lambda z: _double(z)),
+    ("signal_transform with dtype= and name= keywords of its own", floaty,
+     lambda z: _cast_scaled(z, dtype=np.complex64 if z.dtype.kind == "c" else np.float32, name=1.5)),
+    ("in-place multiply by double-precision weights", floaty, lambda z: _imul(z, _weights(z))),
+    ("in-place add of a float64 array", floaty, lambda z: _imul(z, 1.0) if False else _iadd(z)),
+    ("ERR in-place multiply of real data by 1j", lambda z: z.dtype.kind == "f", lambda z: _imul(z, 1j)),
     ("signal_transform abs", lambda z: not is_bb(z), lambda z: _absval(z)),
     ("stft 2", is_bb, lambda z: pb.contrib.stft(z, nperseg=2)),
     ("stft 3", is_bb, lambda z: pb.contrib.stft(z, nperseg=3)),
